@@ -3,6 +3,7 @@
   `GoTime.fmtTok` writes for an in-range field reads that field back and leaves the rest.
 -/
 import RdfModel.Proofs.C20Time
+import RdfModel.Proofs.C20Int
 namespace RdfModel.Proofs.C20Time
 open RdfModel RdfModel.GoTime
 open RdfModel.Xsd (Tok Bytes layoutToks nextIsFrac)
@@ -210,5 +211,514 @@ theorem rt_prefix (v : PT) (ts2 : List Tok) (rest : Bytes) :
     rw [step_fmt v (p ++ ts2) tok st _ hok hsec]
     simp only [Option.bind_some, foldSt]
     exact ih _ hwf'
+
+/-! ### zone element -/
+
+/-- a zone as time.Parse produces it and Format prints it faithfully: none, or ±(hh:mm) with hh ≤ 24,
+    mm ≤ 59; `narrow`: additionally within XSD's ±14:00 -/
+def ZoneOK (narrow : Bool) (z : Option Int) : Prop :=
+  z = none ∨ ∃ hr mm, hr ≤ 24 ∧ mm ≤ 59 ∧ (narrow = true → tzInXsd hr mm = true) ∧
+    (z = some (((hr * 60 + mm) * 60 : Nat) : Int) ∨ z = some (-(((hr * 60 + mm) * 60 : Nat) : Int)))
+
+theorem tdiv_pos (k : Nat) : Int.tdiv (((k * 60 : Nat) : Int)) 60 = (k : Int) := by
+  rw [Int.natCast_mul]; exact Int.mul_tdiv_cancel _ (by decide)
+
+theorem tdiv_neg (k : Nat) : Int.tdiv (-((k * 60 : Nat) : Int)) 60 = -(k : Int) := by
+  rw [Int.neg_tdiv, tdiv_pos]
+
+theorem fmt_tz_cases {nw : Bool} {v : PT} (h : ZoneOK nw v.zone) :
+    (fmtTok v .tz = [0x5A] ∧ v.zone.getD 0 = 0) ∨
+    ∃ sg hr mm, (sg = 0x2B ∨ sg = 0x2D) ∧ hr ≤ 24 ∧ mm ≤ 59 ∧ (nw = true → tzInXsd hr mm = true) ∧
+      fmtTok v .tz = sg :: (pad2 hr ++ [0x3A] ++ pad2 mm) ∧
+      v.zone.getD 0 = (if sg = 0x2B then (((hr * 60 + mm) * 60 : Nat) : Int) else -(((hr * 60 + mm) * 60 : Nat) : Int)) := by
+  rcases h with h | ⟨hr, mm, h1, h2, h3, h⟩
+  · left; simp [fmtTok, h]
+  · by_cases hk : hr * 60 + mm = 0
+    · left
+      rcases h with h | h <;> simp [fmtTok, h, hk]
+    · right
+      have hq : (hr * 60 + mm) / 60 = hr := by omega
+      have hm : (hr * 60 + mm) % 60 = mm := by omega
+      rcases h with h | h
+      · refine ⟨0x2B, hr, mm, Or.inl rfl, h1, h2, h3, ?_, by simp [h]⟩
+        have hne : ¬ (((hr * 60 + mm) * 60 : Nat) : Int) = 0 := by omega
+        have hnn : ¬ ((hr * 60 + mm : Nat) : Int) < 0 := by omega
+        simp only [fmtTok, h, Option.getD_some, hne, if_false, tdiv_pos, hnn, Int.natAbs_natCast, hq, hm]
+      · refine ⟨0x2D, hr, mm, Or.inr rfl, h1, h2, h3, ?_, by simp [h]⟩
+        have hne : ¬ (-(((hr * 60 + mm) * 60 : Nat) : Int)) = 0 := by omega
+        have hnn : (-((hr * 60 + mm : Nat) : Int)) < 0 := by omega
+        simp only [fmtTok, h, Option.getD_some, hne, if_false, tdiv_neg, hnn, if_true, Int.natAbs_neg, Int.natAbs_natCast, hq, hm]
+
+theorem fmt_tz_head {nw : Bool} {v : PT} (h : ZoneOK nw v.zone) (rest : Bytes) : TailHead (fmtTok v .tz ++ rest) := by
+  rcases fmt_tz_cases h with ⟨e, _⟩ | ⟨sg, hr, mm, hs, _, _, _, e, _⟩
+  · rw [e]; intro c r' he; cases he; simp
+  · rw [e]; intro c r' he; cases he; rcases hs with rfl | rfl <;> simp
+
+/-- the zone element reads back what Format wrote -/
+theorem rt_tz {nw : Bool} (v : PT) (ts : List Tok) (st : PS) (rest : Bytes) (h : ZoneOK nw v.zone) :
+    ∃ w, step ts .tz st (fmtTok v .tz ++ rest) =
+        some ({ t := { st.t with zone := some (v.zone.getD 0) }, n := { st.n with tzWide := w } }, rest) ∧
+      (st.n.tzWide = false → nw = true → w = false) := by
+  rcases fmt_tz_cases h with ⟨e, e0⟩ | ⟨sg, hr, mm, hs, h1, h2, h3, e, e0⟩
+  · refine ⟨st.n.tzWide, ?_, fun hw _ => hw⟩
+    rw [e, e0]; exact sf_tz_Z ts st rest
+  · refine ⟨!tzInXsd hr mm, ?_, fun _ hn => by simp [h3 hn]⟩
+    rw [e, e0]; exact sf_tz_num ts st hs h1 h2 rest
+
+/-! ### whole layouts -/
+
+/-- the state after the tail of a layout read the text Format wrote for it -/
+def tailSt (v : PT) (tl : Tail) (w : Bool) (s : PS) : PS :=
+  match tl with
+  | .tz => { t := { s.t with zone := some (v.zone.getD 0) }, n := { s.n with tzWide := w } }
+  | _ => s
+
+theorem formatWith_append (a b : List Tok) (v : PT) : formatWith (a ++ b) v = formatWith a v ++ formatWith b v := by
+  simp [formatWith, List.flatMap_append]
+
+theorem tailHead_tail {nw : Bool} {v : PT} (hz : ZoneOK nw v.zone) (tl : Tail) : TailHead (formatWith tl.toks v) := by
+  cases tl with
+  | none => exact tailHead_nil
+  | z => intro c r' he; simp [formatWith, Tail.toks, fmtTok] at he; simp [he.1]
+  | tz =>
+    have := fmt_tz_head hz []
+    simpa [formatWith, Tail.toks] using this
+
+theorem dayOK_tail (v : PT) (tl : Tail) (w : Bool) (s : PS) : dayOK (tailSt v tl w s).t = dayOK s.t := by
+  cases tl <;> rfl
+
+/-- parse ∘ format for a whole layout `pre ++ tail` -/
+theorem rt_layout {nw : Bool} (v : PT) (pre : List Tok) (tl : Tail)
+    (hwf : WF v tl.toks (formatWith tl.toks v) pre) (hz : ZoneOK nw v.zone) (hd : dayOK (foldSt v pre {}).t = true) :
+    ∃ w, parseWith (pre ++ tl.toks) (formatWith (pre ++ tl.toks) v) = some (tailSt v tl w (foldSt v pre {})) ∧
+      (nw = true → (foldSt v pre {}).n.tzWide = false → w = false) := by
+  have hp := rt_prefix v tl.toks (formatWith tl.toks v) pre {} hwf
+  have key : ∃ w, parseToks tl.toks (foldSt v pre {}) (formatWith tl.toks v) = some (tailSt v tl w (foldSt v pre {})) ∧
+      (nw = true → (foldSt v pre {}).n.tzWide = false → w = false) := by
+    cases tl with
+    | none => exact ⟨false, by simp [Tail.toks, parseToks, formatWith, tailSt], fun _ _ => rfl⟩
+    | z => exact ⟨false, by simp [Tail.toks, parseToks, formatWith, tailSt, fmtTok, sf_lit], fun _ _ => rfl⟩
+    | tz =>
+      obtain ⟨w, hw, hn⟩ := rt_tz v [] (foldSt v pre {}) [] hz
+      refine ⟨w, ?_, fun a b => hn b a⟩
+      simp only [Tail.toks, parseToks, formatWith, List.flatMap_cons, List.flatMap_nil, tailSt]
+      rw [hw]; simp
+  obtain ⟨w, hw, hn⟩ := key
+  refine ⟨w, ?_, hn⟩
+  simp only [parseWith, formatWith_append, hp, hw, dayOK_tail, hd, if_true]
+
+/-! ### invariant of the parse loop -/
+
+theorem getYear_lt {v r : Bytes} {y : Nat} (h : getYear v = some (y, r)) : y < 10000 := by
+  match v with
+  | [] | [_] | [_, _] | [_, _, _] => simp [getYear] at h
+  | a :: b :: c :: d :: r0 =>
+    simp only [getYear] at h
+    split at h
+    · next hd => simp [dig] at h; simp [Xsd.isDigit] at hd; omega
+    · simp at h
+
+theorem step_tz_inv {ts : List Tok} {st st' : PS} {v r : Bytes} (h : step ts .tz st v = some (st', r)) :
+    st' = { st with t := { st.t with zone := some 0 } } ∨
+    ∃ hr mm o, hr ≤ 24 ∧ mm ≤ 60 ∧ (o = (((hr * 60 + mm) * 60 : Nat) : Int) ∨ o = -(((hr * 60 + mm) * 60 : Nat) : Int)) ∧
+      st' = { t := { st.t with zone := some o }, n := { st.n with tzWide := !tzInXsd hr mm } } := by
+  simp only [step] at h
+  grind
+
+/-- what every state reachable by the parse loop satisfies -/
+def ZInv (st : PS) : Prop :=
+  st.t.zone = none ∨ st.t.zone = some 0 ∨
+  ∃ hr mm, hr ≤ 24 ∧ mm ≤ 60 ∧
+    (st.t.zone = some (((hr * 60 + mm) * 60 : Nat) : Int) ∨ st.t.zone = some (-(((hr * 60 + mm) * 60 : Nat) : Int))) ∧
+    st.n.tzWide = !tzInXsd hr mm
+
+def Inv (st : PS) : Prop :=
+  st.t.year < 10000 ∧ (∀ m, st.t.month = some m → 1 ≤ m ∧ m ≤ 12) ∧ st.t.hour < 24 ∧ st.t.min < 60 ∧ st.t.sec < 60 ∧ ZInv st
+
+theorem inv_init : Inv {} := by
+  refine ⟨by decide, ?_, by decide, by decide, by decide, Or.inl rfl⟩
+  intro m h; cases h
+
+theorem step_inv {ts : List Tok} {tok : Tok} {st st' : PS} {v r : Bytes} (h : step ts tok st v = some (st', r))
+    (hi : Inv st) : Inv st' := by
+  obtain ⟨h1, h2, h3, h4, h5, h6⟩ := hi
+  cases tok with
+  | lit b => rw [step_lit_iff] at h; rw [h.2]; exact ⟨h1, h2, h3, h4, h5, h6⟩
+  | year =>
+    rw [step_year_iff] at h
+    obtain ⟨y, hy, rfl⟩ := h
+    exact ⟨getYear_lt hy, h2, h3, h4, h5, h6⟩
+  | month =>
+    rw [step_month_iff] at h
+    obtain ⟨m, _, hm1, hm2, rfl⟩ := h
+    refine ⟨h1, ?_, h3, h4, h5, h6⟩
+    intro m' e; simp at e; subst e; exact ⟨hm1, hm2⟩
+  | day =>
+    rw [step_day_iff] at h
+    obtain ⟨d, _, rfl⟩ := h
+    exact ⟨h1, h2, h3, h4, h5, h6⟩
+  | hour =>
+    rw [step_hour_iff] at h
+    obtain ⟨hh, one, _, hlt, rfl⟩ := h
+    exact ⟨h1, h2, hlt, h4, h5, h6⟩
+  | minute =>
+    rw [step_minute_iff] at h
+    obtain ⟨m, _, hlt, rfl⟩ := h
+    exact ⟨h1, h2, h3, hlt, h5, h6⟩
+  | second =>
+    obtain ⟨s, r1, _, hlt, hc⟩ := step_second_inv h
+    rcases hc with ⟨_, rfl⟩ | ⟨_, p, d, r2, f, _, _, _, _, rfl⟩
+    · exact ⟨h1, h2, h3, h4, hlt, h6⟩
+    · exact ⟨h1, h2, h3, h4, hlt, h6⟩
+  | frac0 n sep =>
+    obtain ⟨_, f, _, _, rfl⟩ := step_frac0_inv h
+    exact ⟨h1, h2, h3, h4, h5, h6⟩
+  | tz =>
+    rcases step_tz_inv h with rfl | ⟨hr, mm, o, hh, hm, ho, rfl⟩
+    · exact ⟨h1, h2, h3, h4, h5, Or.inr (Or.inl rfl)⟩
+    · refine ⟨h1, h2, h3, h4, h5, Or.inr (Or.inr ⟨hr, mm, hh, hm, ?_, rfl⟩)⟩
+      rcases ho with rfl | rfl
+      · exact Or.inl rfl
+      · exact Or.inr rfl
+  | unknown => simp [step] at h
+
+theorem parseToks_inv : ∀ (toks : List Tok) (st stf : PS) (a : Bytes), parseToks toks st a = some stf → Inv st → Inv stf := by
+  intro toks
+  induction toks with
+  | nil =>
+    intro st stf a h hi
+    obtain ⟨_, rfl⟩ := end_inv (by simpa [parseToks] using h)
+    exact hi
+  | cons tok ts ih =>
+    intro st stf a h hi
+    simp only [parseToks, Option.bind_eq_some_iff, Prod.exists] at h
+    obtain ⟨s1, r1, hs, hrest⟩ := h
+    exact ih _ _ _ hrest (step_inv hs hi)
+
+/-- the invariant gives the zone in the form the round trip needs -/
+theorem zoneOK_of_inv {st : PS} (hi : Inv st) (hw : st.n.tzWide = false) : ZoneOK true st.t.zone := by
+  rcases hi.2.2.2.2.2 with h | h | ⟨hr, mm, hh, hm, hz, hwz⟩
+  · exact Or.inl h
+  · exact Or.inr ⟨0, 0, by omega, by omega, fun _ => by decide, Or.inl (by simpa using h)⟩
+  · rw [hw] at hwz
+    have hx : tzInXsd hr mm = true := by simpa using hwz.symm
+    have : mm ≤ 59 := by
+      simp [tzInXsd] at hx; omega
+    exact Or.inr ⟨hr, mm, hh, this, fun _ => hx, hz⟩
+
+/-! ### one layout's text read by a sibling layout -/
+
+theorem app_congr {a b c d : Bytes} (h1 : a = b) (h2 : c = d) : a ++ c = b ++ d := by rw [h1, h2]
+
+theorem toks_none : Tail.none.toks = [] := rfl
+theorem toks_z : Tail.z.toks = [.lit 0x5A] := rfl
+theorem toks_tz : Tail.tz.toks = [.tz] := rfl
+
+theorem fmtTok_tz_zone (t : PT) (x : Int) : fmtTok { t with zone := some x } .tz = fmtTok { zone := some x } .tz := by
+  simp [fmtTok]
+
+theorem fmtTok_tz_getD (v : PT) : fmtTok { zone := some (v.zone.getD 0) } .tz = fmtTok v .tz := by
+  simp [fmtTok]
+
+/-- the text written with layout `pre ++ tl`, read with `pre ++ tl'` (same prefix, another tail):
+    if it is accepted, it is written back identically and nothing lax was used -/
+theorem cross_plain (v : PT) (pre : List Tok) (tl tl' : Tail)
+    (hwf : ∀ ts2, WF v ts2 (formatWith tl.toks v) pre) (hz : ZoneOK true v.zone)
+    (hfmt : ∀ z, formatWith pre { (foldSt v pre {}).t with zone := z } = formatWith pre v)
+    (hfmt0 : formatWith pre (foldSt v pre {}).t = formatWith pre v)
+    (hn : (foldSt v pre {}).n = {})
+    {st'' : PS} (h : parseWith (pre ++ tl'.toks) (formatWith (pre ++ tl.toks) v) = some st'') :
+    formatWith (pre ++ tl'.toks) st''.t = formatWith (pre ++ tl.toks) v ∧ st''.n.clean = true := by
+  obtain ⟨hp, _⟩ := parseWith_inv h
+  rw [formatWith_append, rt_prefix v tl'.toks (formatWith tl.toks v) pre {} (hwf _)] at hp
+  rw [formatWith_append, formatWith_append]
+  cases tl' with
+  | none =>
+    simp only [toks_none, parseToks] at hp
+    obtain ⟨he, rfl⟩ := end_inv hp
+    rw [he, hfmt0, hn]; exact ⟨by simp [toks_none, formatWith], by decide⟩
+  | z =>
+    simp only [toks_z] at hp
+    unfold_parse at hp
+    obtain ⟨s2, r2, ⟨he, rfl⟩, hend⟩ := hp
+    obtain ⟨rfl, rfl⟩ := end_inv hend
+    rw [he, hfmt0, hn]; exact ⟨by simp [toks_z, formatWith, fmtTok], by decide⟩
+  | tz =>
+    simp only [toks_tz] at hp
+    unfold_parse at hp
+    obtain ⟨s2, r2, htz, hend⟩ := hp
+    obtain ⟨rfl, rfl⟩ := end_inv hend
+    cases tl with
+    | none => simp [Tail.toks, formatWith, step] at htz
+    | z =>
+      have e : formatWith Tail.z.toks v = 0x5A :: [] := by simp [Tail.toks, formatWith, fmtTok]
+      rw [e, sf_tz_Z] at htz
+      simp only [Option.some.injEq, Prod.mk.injEq, and_true] at htz
+      subst htz
+      rw [e]
+      refine ⟨?_, by simp [hn]; decide⟩
+      exact app_congr (hfmt _) (by simp [toks_tz, formatWith, fmtTok])
+    | tz =>
+      have e : formatWith Tail.tz.toks v = fmtTok v .tz ++ [] := by simp [Tail.toks, formatWith]
+      obtain ⟨w, hw, hwf'⟩ := rt_tz v [] (foldSt v pre {}) [] hz
+      rw [e, hw] at htz
+      simp only [Option.some.injEq, Prod.mk.injEq, and_true] at htz
+      subst htz
+      have hw0 : w = false := hwf' (by rw [hn]) rfl
+      subst hw0
+      refine ⟨?_, by simp [hn]; decide⟩
+      refine app_congr (hfmt _) ?_
+      simp only [toks_tz, formatWith, List.flatMap_cons, List.flatMap_nil, List.append_nil]
+      rw [fmtTok_tz_zone, fmtTok_tz_getD]
+
+/-- the same text is refused by the layout with a ".000000000" element after the seconds -/
+theorem cross_frac (v : PT) (pre : List Tok) (tl tl' : Tail)
+    (hwf : ∀ ts2, WF v ts2 (formatWith tl.toks v) pre) (hz : ZoneOK true v.zone) :
+    parseWith (pre ++ (.frac0 9 0x2E :: tl'.toks)) (formatWith (pre ++ tl.toks) v) = none := by
+  have hlen : (formatWith tl.toks v).length < 10 := by
+    cases tl with
+    | none => simp [Tail.toks, formatWith]
+    | z => simp [Tail.toks, formatWith, fmtTok]
+    | tz =>
+      rcases fmt_tz_cases hz with ⟨e, _⟩ | ⟨sg, hr, mm, _, _, _, _, e, _⟩ <;>
+        simp [Tail.toks, formatWith, e, pad2]
+  simp only [parseWith]
+  rw [formatWith_append, rt_prefix v _ (formatWith tl.toks v) pre {} (hwf _)]
+  simp [parseToks, step, hlen]
+
+/-! ### the layout prefixes in use -/
+
+def preD : List Tok := [.year, .lit 0x2D, .month, .lit 0x2D, .day]
+def preC : List Tok := [.hour, .lit 0x3A, .minute, .lit 0x3A, .second]
+def preDT : List Tok := [.year, .lit 0x2D, .month, .lit 0x2D, .day, .lit 0x54, .hour, .lit 0x3A, .minute, .lit 0x3A, .second]
+def preGD : List Tok := [.lit 0x2D, .lit 0x2D, .lit 0x2D, .day]
+def preGM : List Tok := [.lit 0x2D, .lit 0x2D, .month]
+def preGMD : List Tok := [.lit 0x2D, .lit 0x2D, .month, .lit 0x2D, .day]
+def preGY : List Tok := [.year]
+def preGYM : List Tok := [.year, .lit 0x2D, .month]
+
+/-- the calendar and clock fields of a value are in the range time.Parse produces -/
+structure Fields (v : PT) : Prop where
+  year : v.year < 10000
+  m1 : 1 ≤ v.month.getD 1
+  m2 : v.month.getD 1 ≤ 12
+  hour : v.hour < 24
+  min : v.min < 60
+  sec : v.sec < 60
+  d1 : 1 ≤ v.day.getD 1
+  d2 : v.day.getD 1 ≤ daysIn (v.month.getD 1) v.year
+
+/-- what the cross-layout lemmas need of a layout prefix -/
+structure PreOK (v : PT) (pre : List Tok) : Prop where
+  wf : ∀ ts2 rest, TailHead rest → WF v ts2 rest pre
+  fmt : ∀ z, formatWith pre { (foldSt v pre {}).t with zone := z } = formatWith pre v
+  fmt0 : formatWith pre (foldSt v pre {}).t = formatWith pre v
+  notes : (foldSt v pre {}).n = {}
+  day : dayOK (foldSt v pre {}).t = true
+
+theorem daysIn_mono0 (m y : Nat) : daysIn m y ≤ daysIn m 0 := by
+  unfold daysIn; split <;> (try split) <;> simp [isLeap]
+theorem daysIn_ge (m y : Nat) : 1 ≤ daysIn m y := by
+  unfold daysIn; split <;> (try split) <;> omega
+
+theorem preOK_D {v : PT} (h : Fields v) : PreOK v preD := by
+  have hd31 := Nat.le_trans h.d2 (daysIn_le _ _)
+  refine ⟨?_, ?_, ?_, ?_, ?_⟩
+  · intro ts2 rest _
+    simp [preD, WF, TokOK, h.year, h.m1, h.m2]; omega
+  · intro z; simp [preD, formatWith, foldSt, stepSt, setT, fmtTok]
+  · simp [preD, formatWith, foldSt, stepSt, setT, fmtTok]
+  · simp [preD, foldSt, stepSt, setN]
+  · simp [preD, foldSt, stepSt, setT, dayOK, h.d1, h.d2]
+
+theorem preOK_C {v : PT} (h : Fields v) : PreOK v preC := by
+  refine ⟨?_, ?_, ?_, ?_, ?_⟩
+  · intro ts2 rest hr
+    simp [preC, WF, TokOK, h.hour, h.min, h.sec, formatWith]; exact Or.inr hr
+  · intro z; simp [preC, formatWith, foldSt, stepSt, setT, fmtTok]
+  · simp [preC, formatWith, foldSt, stepSt, setT, fmtTok]
+  · simp [preC, foldSt, stepSt, setN]
+  · simp [preC, foldSt, stepSt, setT, dayOK, daysIn]
+
+theorem preOK_DT {v : PT} (h : Fields v) : PreOK v preDT := by
+  have hd31 := Nat.le_trans h.d2 (daysIn_le _ _)
+  refine ⟨?_, ?_, ?_, ?_, ?_⟩
+  · intro ts2 rest hr
+    simp [preDT, WF, TokOK, h.year, h.m1, h.m2, h.hour, h.min, h.sec, formatWith]
+    exact ⟨by omega, Or.inr hr⟩
+  · intro z; simp [preDT, formatWith, foldSt, stepSt, setT, fmtTok]
+  · simp [preDT, formatWith, foldSt, stepSt, setT, fmtTok]
+  · simp [preDT, foldSt, stepSt, setN]
+  · simp [preDT, foldSt, stepSt, setT, dayOK, h.d1, h.d2]
+
+theorem preOK_GD {v : PT} (h : Fields v) : PreOK v preGD := by
+  have hd31 := Nat.le_trans h.d2 (daysIn_le _ _)
+  refine ⟨?_, ?_, ?_, ?_, ?_⟩
+  · intro ts2 rest _
+    simp [preGD, WF, TokOK]; omega
+  · intro z; simp [preGD, formatWith, foldSt, stepSt, setT, fmtTok]
+  · simp [preGD, formatWith, foldSt, stepSt, setT, fmtTok]
+  · simp [preGD, foldSt, stepSt, setN]
+  · simp [preGD, foldSt, stepSt, setT, dayOK, h.d1, daysIn]; exact hd31
+
+theorem preOK_GM {v : PT} (h : Fields v) : PreOK v preGM := by
+  refine ⟨?_, ?_, ?_, ?_, ?_⟩
+  · intro ts2 rest _
+    simp [preGM, WF, TokOK, h.m1, h.m2]
+  · intro z; simp [preGM, formatWith, foldSt, stepSt, setT, fmtTok]
+  · simp [preGM, formatWith, foldSt, stepSt, setT, fmtTok]
+  · simp [preGM, foldSt, stepSt, setN]
+  · simp [preGM, foldSt, stepSt, setT, dayOK]; exact daysIn_ge _ _
+
+theorem preOK_GMD {v : PT} (h : Fields v) : PreOK v preGMD := by
+  have hd31 := Nat.le_trans h.d2 (daysIn_le _ _)
+  refine ⟨?_, ?_, ?_, ?_, ?_⟩
+  · intro ts2 rest _
+    simp [preGMD, WF, TokOK, h.m1, h.m2]; omega
+  · intro z; simp [preGMD, formatWith, foldSt, stepSt, setT, fmtTok]
+  · simp [preGMD, formatWith, foldSt, stepSt, setT, fmtTok]
+  · simp [preGMD, foldSt, stepSt, setN]
+  · simp [preGMD, foldSt, stepSt, setT, dayOK, h.d1]; exact Nat.le_trans h.d2 (daysIn_mono0 _ _)
+
+theorem preOK_GY {v : PT} (h : Fields v) : PreOK v preGY := by
+  refine ⟨?_, ?_, ?_, ?_, ?_⟩
+  · intro ts2 rest _
+    simp [preGY, WF, TokOK, h.year]
+  · intro z; simp [preGY, formatWith, foldSt, stepSt, setT, fmtTok]
+  · simp [preGY, formatWith, foldSt, stepSt, setT, fmtTok]
+  · simp [preGY, foldSt, stepSt, setN]
+  · simp [preGY, foldSt, stepSt, setT, dayOK]; exact daysIn_ge _ _
+
+theorem preOK_GYM {v : PT} (h : Fields v) : PreOK v preGYM := by
+  refine ⟨?_, ?_, ?_, ?_, ?_⟩
+  · intro ts2 rest _
+    simp [preGYM, WF, TokOK, h.year, h.m1, h.m2]
+  · intro z; simp [preGYM, formatWith, foldSt, stepSt, setT, fmtTok]
+  · simp [preGYM, formatWith, foldSt, stepSt, setT, fmtTok]
+  · simp [preGYM, foldSt, stepSt, setN]
+  · simp [preGYM, foldSt, stepSt, setT, dayOK]; exact daysIn_ge _ _
+
+/-- the fields of a state the parse loop produced, with the day-of-month test passed -/
+theorem fields_of_inv {st : PS} (hi : Inv st) (hd : dayOK st.t = true) : Fields st.t := by
+  obtain ⟨h1, h2, h3, h4, h5, _⟩ := hi
+  simp [dayOK] at hd
+  refine ⟨h1, ?_, ?_, h3, h4, h5, hd.1, hd.2⟩
+  · cases hm : st.t.month with
+    | none => simp
+    | some m => simpa using (h2 m hm).1
+  · cases hm : st.t.month with
+    | none => simp
+    | some m => simpa using (h2 m hm).2
+
+/-! ### the written text has no white space -/
+
+theorem isWs_ge {b : Nat} (h : 33 ≤ b) : Spec.Xsd.isWs b = false := by
+  simp [Spec.Xsd.isWs]; omega
+
+/-- literal bytes of a layout element are not white space -/
+def LitOK : Tok → Prop
+  | .lit b => 33 ≤ b
+  | .frac0 _ sep => 33 ≤ sep
+  | _ => True
+
+theorem mem_pad2 {n b : Nat} (h : b ∈ pad2 n) : 33 ≤ b := by
+  simp [pad2] at h; omega
+theorem mem_pad4 {n b : Nat} (h : b ∈ pad4 n) : 33 ≤ b := by
+  simp [pad4] at h; omega
+theorem mem_pad9 {n b : Nat} (h : b ∈ pad9 n) : 33 ≤ b := by
+  simp [pad9] at h; omega
+
+theorem fmtTok_ge (v : PT) (tok : Tok) (hl : LitOK tok) : ∀ b ∈ fmtTok v tok, 33 ≤ b := by
+  intro b hb
+  cases tok with
+  | lit c => simp [fmtTok] at hb; subst hb; exact hl
+  | year => exact mem_pad4 hb
+  | month => exact mem_pad2 hb
+  | day => exact mem_pad2 hb
+  | hour => exact mem_pad2 hb
+  | minute => exact mem_pad2 hb
+  | second => exact mem_pad2 hb
+  | frac0 n sep =>
+    simp only [fmtTok, List.mem_cons] at hb
+    rcases hb with rfl | hb
+    · exact hl
+    · exact mem_pad9 (List.mem_of_mem_take hb)
+  | tz =>
+    simp only [fmtTok] at hb
+    split at hb
+    · simp at hb; omega
+    · simp only [List.mem_cons, List.mem_append] at hb
+      rcases hb with rfl | (hb | hb) | hb
+      · split <;> omega
+      · exact mem_pad2 hb
+      · simp at hb; omega
+      · exact mem_pad2 hb
+  | unknown => simp [fmtTok] at hb
+
+theorem formatWith_noWs (toks : List Tok) (v : PT) (h : ∀ tok ∈ toks, LitOK tok) : C20.NoWs (formatWith toks v) := by
+  intro b hb
+  simp only [formatWith, List.mem_flatMap] at hb
+  obtain ⟨tok, ht, hb⟩ := hb
+  exact isWs_ge (fmtTok_ge v tok (h tok ht) b hb)
+
+/-! ### re-mapping the written text -/
+
+theorem firstParse_good {ls : List Bytes} {w : Bytes} {P : TVal → Notes → Prop}
+    (hex : ∃ l ∈ ls, (timeParse l w).isSome = true)
+    (hall : ∀ l' ∈ ls, ∀ st, timeParse l' w = some st → P { t := st.t, layout := l' } st.n) :
+    ∃ v' n', firstParse ls w = some (v', n') ∧ P v' n' := by
+  induction ls with
+  | nil => obtain ⟨l, hl, _⟩ := hex; cases hl
+  | cons l0 ls ih =>
+    simp only [firstParse]
+    cases h0 : timeParse l0 w with
+    | some st => exact ⟨_, _, rfl, hall l0 List.mem_cons_self st h0⟩
+    | none =>
+      simp only
+      apply ih
+      · obtain ⟨l, hl, hs⟩ := hex
+        rcases List.mem_cons.mp hl with rfl | hl'
+        · rw [h0] at hs; cases hs
+        · exact ⟨l, hl', hs⟩
+      · intro l' hl' st hst; exact hall l' (List.mem_cons_of_mem _ hl') st hst
+
+/-- the text written for a value with layout `l = pre ++ tl` (no fraction element) maps again, through
+    whichever sibling layout comes first, to a value that writes the same text, with nothing lax used -/
+theorem canon_of {ls : List Bytes} {pre : List Tok}
+    (hls : ∀ l' ∈ ls, ∃ tl' : Tail, layoutToks l' = pre ++ tl'.toks ∨ layoutToks l' = pre ++ (.frac0 9 0x2E :: tl'.toks))
+    {v : PT} (hpre : PreOK v pre) (hz : ZoneOK true v.zone) {tl : Tail} {l : Bytes} (hl : l ∈ ls)
+    (hlt : layoutToks l = pre ++ tl.toks) :
+    ∃ v' n', firstParse ls (timeFormat l v) = some (v', n') ∧ lexTime v' = timeFormat l v ∧ n'.clean = true := by
+  have hwf : ∀ ts2, WF v ts2 (formatWith tl.toks v) pre := fun ts2 => hpre.wf ts2 _ (tailHead_tail hz tl)
+  have hw : timeFormat l v = formatWith (pre ++ tl.toks) v := by simp [timeFormat, hlt]
+  apply firstParse_good
+  · refine ⟨l, hl, ?_⟩
+    obtain ⟨w, hw', _⟩ := rt_layout v pre tl (hwf _) hz hpre.day
+    simp [timeParse, hlt, timeFormat, hw']
+  · intro l' hl' st hst
+    obtain ⟨tl', h' | h'⟩ := hls l' hl'
+    · rw [timeParse, h', hw] at hst
+      have := cross_plain v pre tl tl' hwf hz hpre.fmt hpre.fmt0 hpre.notes hst
+      refine ⟨?_, this.2⟩
+      simp only [lexTime, timeFormat, h', hlt]; exact this.1
+    · rw [timeParse, h', hw, cross_frac v pre tl tl' hwf hz] at hst
+      cases hst
+
+def preCF : List Tok := [.hour, .lit 0x3A, .minute, .lit 0x3A, .second, .frac0 9 0x2E]
+def preDTF : List Tok :=
+  [.year, .lit 0x2D, .month, .lit 0x2D, .day, .lit 0x54, .hour, .lit 0x3A, .minute, .lit 0x3A, .second, .frac0 9 0x2E]
+
+theorem wf_CF {v : PT} (h : Fields v) (hns : v.nsec < 1000000000) (ts2 : List Tok) (rest : Bytes) : WF v ts2 rest preCF := by
+  simp [preCF, WF, TokOK, h.hour, h.min, h.sec, hns, nextIsFrac]
+
+theorem wf_DTF {v : PT} (h : Fields v) (hns : v.nsec < 1000000000) (ts2 : List Tok) (rest : Bytes) : WF v ts2 rest preDTF := by
+  have hd31 := Nat.le_trans h.d2 (daysIn_le _ _)
+  simp [preDTF, WF, TokOK, h.year, h.m1, h.m2, h.hour, h.min, h.sec, hns, nextIsFrac]; omega
+
+theorem day_CF (v : PT) : dayOK (foldSt v preCF {}).t = true := by
+  simp [preCF, foldSt, stepSt, setT, dayOK, daysIn]
+
+theorem day_DTF {v : PT} (h : Fields v) : dayOK (foldSt v preDTF {}).t = true := by
+  simp [preDTF, foldSt, stepSt, setT, dayOK, h.d1, h.d2]
 
 end RdfModel.Proofs.C20Time
